@@ -71,6 +71,8 @@ STATIC = [
      "decls": [d("CONFigure:RANGe", "range", ["u8"]), d("CONFigure:RANGe?", "rangeq"), d("MEASure?", "meas", ret="f32"), d("*WAI", "wai")]},
     {"mod": "s16_helpers_std", "flags": ["StandardCommands"], "helpers": {0: 3, 2: 2}, "decls": [d("A:B", "ab"), d("A:B?", "abq")]},
     {"mod": "s17_helpers_err", "flags": ["ErrorCommands"], "helpers": {0: 1, 1: 4}, "decls": [d("X", "x"), d("Y?", "yq"), d("[Z]:W", "zw")]},
+    # the options of the attribute in the other order: what is requested must not depend on the order it is requested in
+    {"mod": "s18_flag_order", "flags": ["ErrorCommands", "StandardCommands"], "decls": [d("USER:CMD", "u"), d("OTHer?", "o")]},
 ]
 
 UPPER = "ABCDEFGHIJKLMNOPQRSTUVWXYZ"
@@ -192,6 +194,8 @@ def generate(seed, count):
             decls.append(d(cmd, "h%d" % len(decls), params, ret, rng.random() < 0.7))
         sp = {"mod": "g%03d" % i, "flags": flags, "decls": decls}
         hr = random.Random(seed * 1000003 + i)
+        if len(flags) == 2 and hr.random() < 0.5:
+            sp["flags"] = list(reversed(flags))
         if hr.random() < 0.35:
             sp["helpers"] = {k: hr.randint(1, 2) for k in range(len(decls) + 1) if hr.random() < 0.4}
         specs.append(sp)
